@@ -164,6 +164,10 @@ pub fn configs(thorough: bool) -> Vec<Cfg> {
             ..Cfg::default()
         });
     }
+    // minimum match lengths around the width of the LZ hash key (key = min_match - 4 bases at 2 bits: 64 bits at 36)
+    out.push(Cfg { k: 11, segment_size: 50, min_match: 36, threads: 2, ..Cfg::default() });
+    out.push(Cfg { k: 17, segment_size: 200, min_match: 40, threads: 2, single_file: true, ..Cfg::default() });
+    if thorough { out.push(Cfg { k: 11, segment_size: 200, min_match: 35, threads: 1, ..Cfg::default() }); }
     out
 }
 
@@ -287,6 +291,21 @@ pub fn for_each_case<F: Fn(&Case) + Sync>(rep: &Report, thorough: bool, f: F) {
         }
         let samples = vec![("ref#0".to_string(), vec![("c".to_string(), r.clone())]), ("s1#0".to_string(), orphans)];
         big.push(Case { id: format!("compressible_orphans{n}"), samples, cfg, edits: format!("{n} contigs of 24-30 bases with k=31 in one sample") });
+    }
+    // descriptor lengths at the width boundaries of the catalogue's integer code: a raw length is stored as the
+    // zigzag difference to segment_size (+k), so short contigs under a huge segment size give values just below /
+    // inside / above the 2->3, 3->4 and 4->5 byte thresholds (16 512; 2 113 664; 270 549 120)
+    for (vi, seg) in [8_300usize, 1_050_000, 1_100_000, 135_300_000].iter().enumerate() {
+        let cfg = Cfg { k: 11, segment_size: *seg, min_match: 15, threads: 2, ..Cfg::default() };
+        let mut rng = Rng::new(seed.wrapping_add(600 + vi as u64));
+        let a = rng.bases(400);
+        let mut samples: Vec<Sample> = vec![("ref#0".to_string(), vec![("c1".to_string(), a.clone()), ("c2".to_string(), rng.bases(90))])];
+        for i in 1..4usize {
+            let mut b = a[..400 - 37 * i].to_vec();
+            b[100 + i] = (b[100 + i] + 1) & 3;
+            samples.push((format!("s{i}#0"), vec![("c1".to_string(), b), ("c3".to_string(), rng.bases(20 + 50 * i))]));
+        }
+        big.push(Case { id: format!("lenwidth{vi}"), samples, cfg, edits: format!("segment size {seg}: descriptor lengths coded near an integer-width threshold") });
     }
     // edit sweep: one archive, ~200 delta-coded samples, each a different point of two small products
     for (wi, (k, seg, mm)) in [(11usize, 50usize, 15usize), (15, 60, 20)].iter().enumerate() {
